@@ -1,11 +1,31 @@
 from props._kt import *
+import os
+from lib.core import Verus, VERUS_DIR
+from lib import vx
+from verus import c17_get_commands as gc
 
 PROPERTY = 'C17'
 LEVEL = 'proof'
 Q = 'crates/aranya-runtime/src/sync/requester.rs'
 R = 'crates/aranya-runtime/src/sync/responder.rs'
-HARNESS_FILES = ['kani/aranya-runtime/requester.rs', 'kani/aranya-runtime/responder.rs', 'kani/aranya-runtime/mocks.rs', 'kani/aranya-runtime/storage_mod.rs']
+HARNESS_FILES = ['verus/c17_get_commands.py', 'kani/aranya-runtime/requester.rs', 'kani/aranya-runtime/responder.rs', 'kani/aranya-runtime/mocks.rs', 'kani/aranya-runtime/storage_mod.rs']
+def _build(crm):
+    def b():
+        text, located, dropped, raws = gc.build(crm)
+        d = os.path.join(VERUS_DIR, 'c17_get_commands' + ('' if crm == '100' else '_' + crm))
+        os.makedirs(d, exist_ok=True)
+        vx.write_diff(raws, os.path.join(d, 'repo_vs_verified.diff'))
+        return text, located, dropped
+    return b
+
+
+GC_CONTRACT = ('SyncResponder::get_commands and get_next (extracted): with remaining(to_send, next_send) = the ids of all commands from each to_send entry to the end of its segment, '
+               'get_commands returns a prefix of it (exactly once, in order), a full response unless the session is drained, and does not change to_send / next_send / message_index; '
+               'get_next writes a response (or SyncEnd when drained) at the current message index, advances the session by exactly the commands in the message, increments the index by one, '
+               'and on ANY error leaves to_send / next_send / message_index unchanged (retry-safe). Unbounded: any number of segments, commands and responses.')
 UNITS = [
+    Verus('c17_get_commands', _build('100'), min_verified=25, contract=GC_CONTRACT),
+    Verus('c17_get_commands_5', _build('5'), min_verified=25, tiers=('thorough',), contract=GC_CONTRACT + ' (low-mem-usage constants: COMMAND_RESPONSE_MAX = 5)'),
     Kani('sync::requester::verif_kani::c18_get_sync_commands_n1', fns=[Fn(Q, 'get_sync_commands', r'impl SyncRequester')], kind='bounded', bound='1 command meta', covers=1, cap_s=900,
          contract='the requester accepts a response only at the expected index and then expects index+1: response indexes increase by exactly one', **RT),
     Kani('sync::requester::verif_kani::c17_sync_end_contract', fns=[Fn(Q, 'get_sync_commands', r'impl SyncRequester')],
@@ -15,14 +35,15 @@ UNITS = [
     Kani('storage::verif_kani::c21_location_order', fns=[], contract='needed segments are sorted by Location = (max_cut, segment): max cut first (parents-first across segments)', **RT),
 ]
 TRUSTED = KT_TRUSTED
-ASSUMPTIONS = ['SyncResponder::get_commands (resume inside a segment, index advance per delivered response) is NOT covered: three harness variants each exceeded 7-15 min of CBMC time '
-               '(iterator-built Vec of commands + heapless message buffers)',
-               '"every command sent is committed in the responder\'s graph" and "parents-first within a session" over all graph pairs are graph-level and not machine-checked',
-               'find_needed_segments / push_bounded are not under contract']
+ASSUMPTIONS = ['get_commands / get_next are proved over an abstract provider: Segment::get_from returns the commands from the location to the end of its segment in order, Command::id is the stored id, '
+               'SyncResponder::write / postcard put the given response index and command metas on the wire (external_body contracts); message_index < usize::MAX',
+               '"every command sent is committed in the responder\'s graph" reduces to: to_send holds locations of the responder\'s own storage (find_needed_segments, not under contract)',
+               '"parents-first within a session" across segments relies on to_send being sorted by (max_cut, segment) (c21_location_order) — the sort call itself is in find_needed_segments, not under contract',
+               'SyncResponder::push (the other caller of get_commands) is not under contract']
 EXPLANATION = 'Index discipline on the requester side and session termination on the responder side, as function contracts on the real code.'
 MANIFEST = {
     'text': 'Proof of mechanisms: the requester enforces response indexes increasing by one and a matching end message; the responder ends a drained session with SyncEnd at the current index; '
-            'segments are ordered max-cut first. The responder\'s per-response command selection (get_commands) could not be brought within CBMC\'s reach and is not covered.',
-    'note': 'Mechanism contracts only (PROVED-LOCAL); get_commands / find_needed_segments uncovered.',
-    'technique': 'Kani contract harnesses + CBMC',
+            'segments are ordered max-cut first; the responder\'s per-response command selection (get_commands) and session advance (get_next) are proved exact, progressing and retry-safe by Verus for any session size.',
+    'note': 'Mechanism contracts (PROVED-LOCAL); find_needed_segments and push uncovered.',
+    'technique': 'Verus on the extracted get_commands / get_next + Kani contract harnesses (CBMC)',
 }
